@@ -98,10 +98,8 @@ def main(pid, tier, seed):
         d = os.path.join(work, 'r%d' % k)
         desc = expand.tie_group_ruleset(rng, d) if k % 4 == 0 else expand.rich_ruleset(rng, d)
         rule_dirs.append((d, desc))
-    d = os.path.join(work, 'long')
-    rule_dirs.append((d, expand.long_alpha_ruleset(rng, d)))
-    d = os.path.join(work, 'near')
-    rule_dirs.append((d, expand.near_tie_ruleset(rng, d)))
+    from . import shapes
+    rule_dirs += shapes.all_special(rng, work)          # the shared special shapes (long alphas, near ties, repeated types, ...)
     if pid == 'C04':
         for k in range(2 if tier == 'quick' else 20):
             d = os.path.join(work, 'dense%d' % k)
